@@ -194,6 +194,17 @@ def configs(thorough, seed):
             out.append({'model': 'mlp3', 'dtype': 'f32', 'batch': 2,
                         'world': world, 'seed': seed, 'kfac': kk,
                         'history': [['train']] * 2})
+    # bias-free layers (the module gradient IS the weight gradient tensor:
+    # aliasing between what is sent and what is written back) with active
+    # clipping
+    for world, frac in ((2, 'MEM_OPT'), (2, 'COMM_OPT'), (4, 'HYBRID_OPT'),
+                        (4, 'MEM_OPT'), (3, 1 / 3)):
+        for (m, pre), cap in itertools.product(methods, (0.0, 25.0)):
+            kk = base_kfac(m, pre)
+            kk.update(grad_worker_fraction=frac, allreduce_bucket_cap_mb=cap)
+            out.append({'model': 'nbfirst', 'dtype': 'f32', 'batch': 2,
+                        'world': world, 'seed': seed, 'kfac': kk,
+                        'loss_mult': 5.0, 'history': [['train']] * 3})
     return out
 
 
